@@ -328,6 +328,12 @@ func (s *Sim) VerifyAll() {
 			}
 		}
 	}
+	if n := len(s.B.W.Stats().Nodes); n > 32 {
+		s.label("more than 32 archetype nodes")
+		if n > 64 {
+			s.label("more than 64 archetype nodes")
+		}
+	}
 	if s.Cfg.CheckCache && !s.Done() {
 		s.checkCache()
 	}
